@@ -4,7 +4,33 @@ import json, os
 ROOT = os.path.dirname(os.path.dirname(os.path.abspath(__file__)))
 
 PROOF = "proof"
+ENG_NOTE = 'Trusted: Coq kernel; T1 translator (harness/cmd/xlate, go/ast) reporting the statement shapes of engine/gengine.go (unknown shapes become IUnknown, cross-checked by trace acceptance against the generated skeleton); sync.WaitGroup/Mutex and the go statement per the Go memory model (a parallel stage = all interleavings of its children, joined before the next stage); rules abstracted to schedule-independent outcomes (fails / returns / sets stop tag), true of the observer rules and justified in general by C02/C15; gate adversary quiet period (timing can hide a missing barrier from one round, never invent one). No axioms.'
+ENG_TECH = 'Coq proof over an IR regenerated from engine/gengine.go by a go/ast translator (per-run obligation gen = hand, then hand_sound: run_prog = spec for every configuration; traces quantify over all interleavings) + trace/err/result correspondence under a gate adversary evaluated inside Coq'
 CLAIMS = {
+ "C04": {
+  "text": 'Theorems (Props/C04.v, 8, closed): for every rule list, failing set and flag, every trace of Execute is exactly the S/E sequence of all rules (continue-on-error) or of the prefix ending with the first failing rule (stop-on-error), error iff some rule failed; the executed sequence is non-increasing in salience when the installed list is (C08 invariant); the sorted selected variants run a stable descending sort of the selection. Proved for the hand skeletons (Engine/Sound.v hand_sound: run_prog (hand e) c = spec_outcome e c for all 21 entry points and ALL configurations); tied to /repo on every run by T1 (gen/Gen_Engine.v regenerated from engine/gengine.go; obligation gen e = hand e, obligations/GenEngineOk.v re-proves gen_sound) and by running ~350 calls whose traces, error flags and result maps are accepted inside Coq (Engine/Check.v).',
+  "note": ENG_NOTE,
+  "technique": ENG_TECH},
+ "C05": {
+  "text": 'Theorems (Props/C05.v, 22, closed): for EVERY interleaving (all t with traces segs t, Interleave relation) of mix, inverse-mix and the three N-M models and their selected variants: the stage split t = t1 ++ t2 with stage-1 events (all Ends included) before any stage-2 Start (barrier), each scheduled rule exactly once (Permutation), S before E, sorted stages in list order, stage 2 runs iff flag or nothing failed, windows are firstn n / firstn m (skipn n), rules outside the window never run, invalid (n,m) fail without running anything. Tie: T1 skeleton equality + ~530 calls with one rule held at a gate (455 held rounds) accepted inside Coq.',
+  "note": ENG_NOTE,
+  "technique": ENG_TECH},
+ "C11": {
+  "text": 'Engine half proved (Props/C11.v, closed): for all 21 entry points and all configurations the result map is never nil, its keys are exactly the executed rules that reported the returned-flag, without duplicates, and it does not depend on what an earlier call left (hand_no_stale); rule-level half (flag only from a return whose expression evaluated) is part of the statement model (Lang/Sem.v exec_block) and is exercised by failing-inside-return rules. Tie: T1 (IReset first in every skeleton) + ~480 calls over all entry points, all rule kinds (plain / value return / bare return / fail / fail-inside-return), fresh and previously-used engines; keys compared inside Coq, values by the driver.',
+  "note": ENG_NOTE,
+  "technique": ENG_TECH},
+ "C12": {
+  "text": "Theorems (Props/C12.v, 11, closed): every selected variant runs only rules of sel names (existing, named), as-given variants in exactly the caller's order (prefix under stop-on-error), sorted variants a stable sorted permutation, no existing name selected => error and nothing runs, selected N-M strict (unknown name, wrong count or invalid window => error, nothing runs). Tie: T1 + ~480 calls over the 11 selected variants x 12 name-list shapes + random.",
+  "note": ENG_NOTE,
+  "technique": ENG_TECH},
+ "C13": {
+  "text": "Theorems (Props/C13.v, 6, closed): the DAG call's traces are exactly those of dag_stage; for layers ly :: rest every trace splits t1 ++ t2 with t1 an interleaving of the existing rules of ly (once per occurrence, unknown names skipped), t2 = [] and error if one failed, else t2 a trace of the remaining layers: layer barrier under all interleavings, failure stops the rest, error iff an executed rule failed. Tie: T1 (IForLayers [ISelect MSkip; IPar waited; IFailIfErrs], IReset first) + ~330 calls with one rule held per call.",
+  "note": ENG_NOTE,
+  "technique": ENG_TECH},
+ "C14": {
+  "text": "Theorems (Props/C14.v, 7, closed): with the tag never set the stop-tag variant's whole outcome equals the plain variant's (4 pairs); in sorted variants the executed list is the prefix ending with the first rule after which the tag is set (every earlier rule ran with the tag unset); in the mix variant nothing else runs once the first rule set it. Tie: T1 (stoptag flag, IIfNotStopped) + ~630 calls: every position of the tag-setting rule x failing subsets x both flags x 4 tagged variants and the plain counterparts.",
+  "note": ENG_NOTE,
+  "technique": ENG_TECH},
  "C08": {
   "text": "Theorems (Props/C08.v, closed under the global context): for EVERY finite history of full builds, incremental builds, removals and non-compiling texts, every rule name/salience/description/body and every Go map-iteration order, the model container keeps the invariant (unique names, SortRules a duplicate-free permutation of the installed rules in non-increasing current salience, index map = positions) and its abstraction equals the denotation of the history; failed operations change nothing; IsExist agrees. The model (Rules/KcModel.v) is a hand transcription of builder/rule_builder.go + tool.BinarySearch (including the shadowed-mid quirk); it is tied to /repo on every run by running generated histories on the real builder and comparing the dumped container after every operation inside Coq (Rules/KcCheck.v).",
   "note": "Trusted: Coq kernel; the hand-written model's fidelity is established only by the correspondence run (261+ histories quick, 3000+ thorough; generator and harness are python/Go); Go slices modelled as lists; rule bodies identified by the integer they return. No axioms.",
